@@ -1,9 +1,12 @@
 CONSTANTS MaxSteps = 6
           MaxRows = 5
+          CVariant = "atomic"
           Vals = {0, 1, 2}
 VIEW ViewNoHist
 INIT Init
 NEXT Next
 INVARIANT NoCacheFresh
 INVARIANT ReadsAreCurrent
+INVARIANT PassesAreComplete
+INVARIANT CacheIsWhole
 PROPERTY CacheReplays
